@@ -1,6 +1,6 @@
 \* tiff.cpp as it was (write_ calls stop(), failures ignored): TLC must report NoErr / NoCrash violated
 CONSTANTS NDev = 2 NPaths = 3 Kinds1 = {"tiff"} MaxCycles = 2 MaxAppends = 1 MaxPacket = 2 Real = FALSE NKinds = 2
-  NScripts = 1 MaxFaultAt = 8 MaxDepth = 4 FIX_TIFF = 0 FIX_SBS = 1 FIX_META = 1 MaxFd = 5 Ghost = TRUE Export = FALSE
+  NScripts = 1 MaxFaultAt = 8 MaxDepth = 4 FIX_TIFF = 0 FIX_SBS = 1 FIX_META = 1 SetRunning = TRUE FIX_SET = 1 MaxFd = 5 Ghost = TRUE Export = FALSE
 SPECIFICATION Spec
 VIEW View
 INVARIANTS NoErr NoCrash TypeOK OwnsItsFile Cursors InnerFollowsOuter
